@@ -903,6 +903,34 @@ def alias_and_purity_fixed(args) -> List[Tuple[str, Dict[str, Any], str, Any]]:
             fails.append(("AcceptedWithinRanges" if v == "accept" else "TotalTyped", {"cause": "huge-number"},
                           f"validate_config({ {k: {kk: '10**400' for kk in vv} for k, vv in doc.items()} }) -> {v} ({str(out)[:80]})", {"v": {}, "doc": {}}))
 
+    # both spellings valid but different: the stage caches are built with the TTL the normalised configuration announces
+    try:
+        from .. import engine as E
+        import clematis.engine.stages.t1 as t1_mod
+        import clematis.engine.stages.t2.cache as t2c_mod
+        from clematis.engine.stages.t1 import t1_propagate
+        from clematis.engine.stages.t2.core import t2_semantic
+        for sec, a_, b_ in (("t1", 30, 900), ("t1", 900, 30), ("t2", 20, 7), ("t2", 7, 20)):
+            doc = {sec: {"cache": {"enabled": True, "ttl_s": a_, "ttl_sec": b_}}}
+            try:
+                cfg = E.validated_cfg(copy.deepcopy(doc))
+            except Exception:      # noqa: BLE001 - rejected: outside the contract
+                continue
+            announced = cfg[sec]["cache"]["ttl_s"]
+            E.reset_global_caches()
+            st = E.mk_state(E.DEFAULT_GRAPHS, E.default_episodes())
+            ctx = E.mk_ctx(cfg, "A", 1)
+            t1r = t1_propagate(ctx, st, "apple banana")
+            if sec == "t2":
+                t2_semantic(ctx, st, "apple banana", t1r)
+            used = t1_mod._T1_CACHE_CFG if sec == "t1" else t2c_mod._T2_CACHE_CFG
+            if isinstance(used, tuple) and len(used) >= 3 and used[0] == "lru" and used[2] != announced:
+                fails.append(("EngineRunsUnderAccepted", {"cause": "stage-cache-ttl-differs-from-normalised", "section": sec},
+                              f"{doc!r}: the normalised configuration says {sec}.cache.ttl_s={announced!r}, the {sec} stage cache is built with {used!r}", {"v": {}, "doc": doc}))
+        E.reset_global_caches()
+    except Exception as e:      # noqa: BLE001
+        fails.append(("EngineRunsUnderAccepted", {"cause": "stage-cache-probe-raised"}, f"stage cache probe raised {type(e).__name__}: {e}", {"v": {}, "doc": {}}))
+
     def scribble(x):
         if isinstance(x, dict):
             for v_ in list(x.values()):
